@@ -139,6 +139,19 @@ def node(name):
     return Variable(base) @ (-Variable(iv[1:]) if iv[0] == "-" else +Variable(iv[1:]))
 
 
+def two_cf_worlds(gd, rng):
+    """twin_worlds with the first copy counterfactual as well (A@+x and A@-x): every node is a counterfactual variable,
+    every name occurs twice."""
+    tw = twin_worlds(gd, rng)
+    x = next(n for n in tw["nodes"] if "@" in n).split("@-")[1]
+
+    def m(n):
+        return n if "@" in n else f"{n}@+{x}"
+
+    return {"nodes": [m(n) for n in tw["nodes"]], "di": [[m(a), m(b)] for a, b in tw["di"]],
+            "bi": [[m(a), m(b)] for a, b in tw["bi"]], "hostile": "two-cf-worlds"}
+
+
 def twin_worlds(gd, rng):
     """Two copies of an ADMG in one graph, the second over counterfactual variables A@-x (same ``.name`` as A), joined
     by bidirected edges between the copies - the shape of a parallel-worlds graph, built without y0's help."""
